@@ -652,6 +652,38 @@ def gen_ipc(rng, n):
     return out
 
 
+LAP_TARGETS = [1, 10, 10 ** 3, 10 ** 6, 2 ** 31 - 1, 2 ** 31, 2 ** 31 + 5, 10 ** 12]
+
+
+def gen_ipc_laps(rng, per_target):
+    """stratum "many laps" of the C 1/r bounding potential: the budget is (n + fraction) times the uphill energy of
+    one box traversal, n in LAP_TARGETS, reached through tiny charge products (budget of order one) or through large
+    budgets (ordinary charges), several box lengths, both signs of the charge product"""
+    out = []
+    for n in LAP_TARGETS:
+        for j in range(per_target):
+            L = rng.choice([1.0, 2.0, 3.7, 0.5, 10.0])
+            pref = rng.choice([1.5837, 1.0, 2.5])
+            d = rng.randrange(3)
+            sep = [rng.uniform(-L / 2, L / 2) for _ in range(3)]
+            x, q = xq(sep, d)
+            qf = float(q)
+            geom = abs(1 / math.sqrt(qf) - 1 / math.sqrt(qf + L * L / 4))
+            frac = rng.uniform(0.05, 0.95)
+            c2 = rng.choice(CHARGES)
+            if j % 2 == 0 and n >= 1000:
+                # weakly charged pair, ordinary budget
+                dE = 0.1 + rng.expovariate(1.0)
+                c1 = rng.choice([1.0, -1.0]) * dE / ((n + frac) * geom * pref * abs(c2))
+            else:
+                c1 = rng.choice(CHARGES)
+                dE = abs(pref * c1 * c2) * geom * (n + frac)
+            op = {"k": "ipc_disp", "pref": f2b(pref), "c1": f2b(c1), "c2": f2b(c2), "sep": bits(sep), "dir": d,
+                  "speed": f2b(rng.choice(SPEEDS)), "dE": f2b(dE), "L": f2b(L)}
+            out.append({"fam": "ipc", "op": op, "lap_target": n})
+    return out
+
+
 # ------------------------------------------------------------------------------------------------
 # case construction: driver op + implementation result -> mirror evaluation + Coq statement
 def fl(op, name):
@@ -922,6 +954,78 @@ def ipc_energy(kc, x, q, L, s):
     return kc / math.sqrt(t * t + q)
 
 
+def sqrt_bounds(fr, digits=45):
+    """rational lower / upper bounds of sqrt(fr), fr a non-negative Fraction"""
+    a, b = fr.numerator, fr.denominator
+    S = 10 ** digits
+    t = math.isqrt(a * b * S * S)
+    return Fr(t, b * S), Fr(t + 1, b * S)
+
+
+def ipc_exact_laps(kc, q, L, dE):
+    """exact number of whole box traversals floor(dE / |U(0) - U(L/2)|) with Fractions (rigorous sqrt bounds);
+    returns (n, per-lap gain as Fraction) or (None, gain) if the bounds do not decide"""
+    s0 = sqrt_bounds(q)
+    s1 = sqrt_bounds(q + L * L / 4)
+    lo = abs(kc) * (1 / s0[1] - 1 / s1[0])
+    hi = abs(kc) * (1 / s0[0] - 1 / s1[1])
+    n_lo, n_hi = math.floor(dE / hi), math.floor(dE / lo)
+    return (n_lo if n_lo == n_hi else None), (lo + hi) / 2
+
+
+def oracle_ipc(c, res):
+    """C 1/r bounding potential with periodic images, stated without the Coq model: the positive variation of the
+    nearest-image potential gains exactly g = |U(0) - U(L/2)| per box length, so with n = floor(budget / g) (exact):
+    result >= 0, result in [n L, (n + 1) L], and the rest of the budget is inverted on the last lap."""
+    op = c["op"]
+    x, q = xq(sepv(op), op["dir"])
+    kc = Fr(fl(op, "pref")) * Fr(fl(op, "c1")) * Fr(fl(op, "c2"))
+    L = Fr(fl(op, "L"))
+    dE = Fr(fl(op, "dE"))
+    if res == INF or res != res:
+        return "1/r bounding displacement returned %r" % res
+    d = Fr(res) * Fr(fl(op, "speed"))
+    n, g = ipc_exact_laps(kc, q, L, dE)
+    if n is None:
+        return None
+    c["laps_exact"] = n
+    ulp_d = Fr(math.ulp(max(abs(float(d)), float(L))))
+    delta = 16 * ulp_d + Fr(1, 10 ** 9) * L
+    if d < -delta:
+        return "negative displacement %r (budget = %.6g box traversals)" % (res, float(dE / g))
+    if not (n * L - delta <= d <= (n + 1) * L + delta):
+        return "displacement %r L is not within traversal %d..%d of the box (budget = %.9g traversals)" % (
+            float(d / L), n, n + 1, float(dE / g))
+    # remaining budget on the last lap (the implementation's own fmod loses about n ulp of the per-lap gain)
+    e_rem = float(dE - n * g)
+    d_rem = float(d - n * L)
+    gf, Lf, kcf, qf = float(g), float(L), float(kc), float(q)
+    eps = 1e-10 * abs(kcf) / math.sqrt(qf) + 64 * 2.0 ** -53 * (n + 1) * gf + 1e-9 * e_rem
+    if eps > 0.02 * gf:
+        return None
+    dl = float(delta)
+    lo, hi = max(d_rem - dl, 0.0), max(d_rem + dl, 0.0)
+    pts = {0.0, lo, hi}
+    m = 0
+    while x + m * Lf / 2 <= hi and m < 8:
+        if x + m * Lf / 2 > 0:
+            pts.add(x + m * Lf / 2)
+        m += 1
+    for j in range(1, 33):
+        pts.add(hi * j / 32)
+    pts = sorted(pts)
+    en = [ipc_energy(kcf, x, qf, Lf, s) for s in pts]
+    E_lo = posvar(en[:pts.index(lo) + 1])
+    E_hi = posvar(en)
+    if E_lo > e_rem + eps:
+        return "after %d box traversals the uphill energy %.17g already exceeds the rest of the budget %.17g before " \
+               "the returned distance" % (n, E_lo, e_rem)
+    if E_hi < e_rem - eps:
+        return "after %d box traversals the uphill energy %.17g at the returned distance is below the rest of the " \
+               "budget %.17g" % (n, E_hi, e_rem)
+    return None
+
+
 def oracle_exact(c, res):
     """hard sphere / hard dipole / cell bounding: exact rational statement. None if fine, else message."""
     op = c["op"]
@@ -1126,7 +1230,7 @@ def run(ctx, cases_override=None):
     else:
         cases = (gen_ip(rng, int(N * 0.3)) + gen_mh(rng, int(N * 0.27), "lj") + gen_mh(rng, int(N * 0.2), "dep")
                  + gen_hs(rng, int(N * 0.08)) + gen_hs(rng, int(N * 0.04), "hd") + gen_cb(rng, int(N * 0.03))
-                 + gen_ipc(rng, int(N * 0.08)))
+                 + gen_ipc(rng, int(N * 0.08)) + gen_ipc_laps(rng, ctx.n(2, 12)))
         tot = gen_totality(rng, ctx.n(3000, 60000))
         prb = probes()
     allc = cases + tot + prb
@@ -1181,6 +1285,12 @@ def run(ctx, cases_override=None):
             skipped["mirror_undefined"] += 1
             continue
         evs[i] = ev
+        if c["fam"] == "ipc" and ev["aux"] is not None and ev["aux"] > 10 ** 7:
+            # huge lap counts: the real model would need the lap count certified through ~2^-90 enclosures of a
+            # quotient of size > 1e7; these cases are covered by the exact-rational oracle only
+            skipped["ipc_huge_laps_oracle_only"] = skipped.get("ipc_huge_laps_oracle_only", 0) + 1
+            del evs[i]
+            continue
         c["delta"] = 4.0 * ev["tol"] * (fl(c["op"], "speed") if "speed" in c["op"] else 1.0) + 1e-12
         coq_cases.append(disp_case(c, v, ev))
         idx.append(i)
@@ -1228,7 +1338,10 @@ def run(ctx, cases_override=None):
                     pts.add(hi * j / 32)
                 return sorted(pts)
             c["pts_fn"] = pts_fn
-            m = oracle_eplus(c, v, lambda pts, kc=kc, x=x, qf=qf, L=L: [ipc_energy(kc, x, qf, L, s) for s in pts])
+            m = oracle_ipc(c, v)
+            if not m and c.get("laps_exact", 10 ** 9) <= 20:
+                # few laps: additionally the plain positive variation over the whole path
+                m = oracle_eplus(c, v, lambda pts, kc=kc, x=x, qf=qf, L=L: [ipc_energy(kc, x, qf, L, s) for s in pts])
             if m:
                 viol.append((c, r, m))
             continue
@@ -1306,6 +1419,7 @@ def run(ctx, cases_override=None):
         "oracle_failures": len(viol),
         "totality_stream": {"cases": len(tot), "known_finding_hits": {k: len(v) for k, v in known_hits.items()}},
         "probes": len(prb),
+        "ipc_lap_strata": {str(t): sum(1 for c in cases if c.get("lap_target") == t) for t in LAP_TARGETS},
         "traces_validated_against_impl": nproved,
         "case_files": nfiles, "case_files_ok": nok,
         "explanation": "Props/C02.v re-checked (%d theorems); every main-stream result compared with the real model "
